@@ -5,6 +5,7 @@ INVARIANT NoMissedFill
 INVARIANT NoMissedInRange
 INVARIANT TempFollowsPath
 INVARIANT SkipBranchesDead
+INVARIANT MarketFilledInMinute
 INVARIANT TypeOK
 PROPERTY FillAtFirstReach
 PROPERTY NeverBeforeSubmit
